@@ -1648,7 +1648,21 @@ def m_int_from(engine, st, fr, callee, args, ops):
     return z3.simplify(z3.SignExt(w - a.size(), a) if INT_TYPES[src][1] else z3.ZeroExt(w - a.size(), a))
 
 
+_ORD_RE = r"^(<(u8|u16|u32|u64|u128|usize|i8|i16|i32|i64|i128|isize) as Ord>::|std::cmp::|core::cmp::)(min|max)(::<(\w+)>)?$"
+
+
+def m_ord_minmax(engine, st, fr, callee, args, ops):
+    m = re.match(_ORD_RE, callee)
+    ty = m.group(2) or m.group(5)
+    if ty not in INT_TYPES:
+        raise Unsupported("%s on a non-integer type" % callee)
+    a, b = args
+    lt = (a < b) if INT_TYPES[ty][1] else z3.ULT(a, b)
+    return z3.simplify(z3.If(lt, a, b) if m.group(3) == "min" else z3.If(lt, b, a))
+
+
 BUILTIN_MODELS = [
+    (_ORD_RE, m_ord_minmax),
     (_INT_FROM_RE, m_int_from),
     (_ARITH_RE, m_arith_forward),
     (r"^<Vec<.*> as (std::ops::)?Index(Mut)?<usize>>::index(_mut)?$", m_vec_index),
